@@ -6,6 +6,6 @@ CONSTANTS
   Bug_GridScanGE = FALSE
   Bug_SplineOpLookupByPoint = FALSE
   Bug_IntReciprocal = FALSE
-  PROP = "ALL"
-INVARIANT Explained
+  DEPTH = 3
+INVARIANT Emit
 CHECK_DEADLOCK FALSE
